@@ -8,6 +8,7 @@ from vmon import gen
 from vmon.checks.common import obs, fail
 
 CANONICAL_ABS = True   # equals pairs over the canonically sorted list (oracle.abs_order)
+SCALE = True   # worker: every fortieth case (or SCALE_EVERY-th) is blown up by scale_case below
 PROP = "C17"
 MONITORS = ["equals"]
 INSITU = {"k": "equals or eq or tokenisation or copy"}
@@ -45,6 +46,36 @@ def make_restrike_case(rng, i):
     return {"restrike": {"events": ev, "other": other, "moved_off": c + delta}, "route": rng.choice(["build", "shuffled"]),
             "shuffle_seed": rng.randrange(10 ** 6), "pert": "restruck_note_off_moved"}
 
+
+def scale_case(case, i):
+    """hundreds of notes reaching beyond tick 100 000; the operands differ by a single tick in the onset or the end of a late note"""
+    import random
+    if case.get("restrike"):
+        return
+    r = random.Random(f"c17-big:{i}")
+    notes = gen.big_notes(i, n=r.choice([300, 500]), chans=(0, 1), pitches=(60, 62, 64), lmin=2, lmax=30, gap=(1, 30))
+    shift = r.choice([0, 110000, 250000])
+    notes = [[c, p, on + shift, ln, v] for (c, p, on, ln, v) in notes]
+    a = {"notes": [list(n) for n in notes], "extra": [["ts", 0, 4, 4]], "start": "abs"}
+    b = {"notes": [list(n) for n in notes], "extra": [["ts", 0, 4, 4]], "start": r.choice(["abs", "rel"])}
+    pert = r.choice(["none", "duration", "onset_keep_order", "pitch", "velocity"])
+    j = r.randrange(len(notes) - 20, len(notes))
+    n = b["notes"][j]
+    if pert == "duration":
+        n[3] += 1
+    elif pert == "onset_keep_order":
+        n[2] += 1
+        n[3] -= 1 if n[3] > 1 else 0
+    elif pert == "pitch":
+        n[1] += 12
+    elif pert == "velocity":
+        n[4] = n[4] % 127 + 1
+    # keep b well-formed: undo the perturbation if it made two notes of one key overlap
+    key = [x for x in b["notes"] if x[0] == n[0] and x[1] == n[1] and x is not n]
+    if any(not (n[2] + n[3] <= x[2] or n[2] >= x[2] + x[3]) for x in key):
+        b["notes"][j] = list(notes[j])
+        pert = "none"
+    case.update({"a": a, "b": b, "pert": pert, "route": "build"})
 
 def make_case(rng, i, tier):
     if i % 23 == 11:
